@@ -138,17 +138,19 @@ def judge_pair(ctx, before, after, label, rng, npoints=6, big=False):
         if rb.status != "def":
             ctx.count("points_before_" + rb.status)
             continue
-        ra = R.EXACT_WIDE.evaluate(after, p)
-        if ra.status == "undef":
-            ctx.violation("domain_shrunk", f"{txt}: at {S.show_point(p)} the input is defined (value in [{R.lo_float(rb.root.iv)!r}, {R.hi_float(rb.root.iv)!r}]) but the result is not ({ra.undef[0]})")
+        rx = R.EXACT.evaluate(after, p)
+        if rx.status == "undef":
+            ctx.violation("domain_shrunk", f"{txt}: at {S.show_point(p)} the input is defined (value in [{R.lo_float(rb.root.iv)!r}, {R.hi_float(rb.root.iv)!r}]) but the result is not ({rx.undef[0]})")
             return judged
+        # values: 'after' may carry folded constants that are off by rounding, and re-associated arithmetic
+        ra = R.NORMAL_WIDE.evaluate(after, p)
         if ra.status != "def":
             ctx.count("points_after_" + ra.status)
             continue
         judged += 1
         ctx.count("points_judged")
         if not R.intersects(ra.root.iv, rb.root.iv):
-            ctx.violation("value_changed", f"{txt}: at {S.show_point(p)} the input's value lies in [{R.lo_float(rb.root.iv)!r}, {R.hi_float(rb.root.iv)!r}] but the result's exact value in [{R.lo_float(ra.root.iv)!r}, {R.hi_float(ra.root.iv)!r}]")
+            ctx.violation("value_changed", f"{txt}: at {S.show_point(p)} the input's value lies in [{R.lo_float(rb.root.iv)!r}, {R.hi_float(rb.root.iv)!r}] but the result's value in [{R.lo_float(ra.root.iv)!r}, {R.hi_float(ra.root.iv)!r}]")
             return judged
     return judged
 
